@@ -438,7 +438,7 @@ def run_engine(P, eng, exe, res, rng, tier, known):
 
     # known findings: witnesses replayed on the implementation
     for f in known:
-        if f.get('engine') != eng.name:
+        if f.get('engine') != eng.name or 'case' not in f:
             continue
         w = Case('known:' + f['id'], f['case'])
         wi, _ = eng.run_impl(exe, [w])
@@ -458,6 +458,17 @@ def run_engine(P, eng, exe, res, rng, tier, known):
         else:
             i, d, o = item
             c, im, mo = cases[i], impl[i], model[i]
+        # a recorded defect class: identified by the input (first op = the archive / scenario) and,
+        # optionally, by the diverging operation; anything else of the same property is still reported
+        if d is not None:
+            cls = [f for f in known if f.get('engine') == eng.name and f.get('case_regex')
+                   and re.search(f['case_regex'], c.ops[0] if c.ops else '')
+                   and (not f.get('op_regex') or (d < len(c.ops) and re.search(f['op_regex'], c.ops[d])))]
+            if cls:
+                if cls[0]['id'] not in res.known_seen:
+                    print(f"KNOWN-FINDING: property={P.PROP} {cls[0]['what']}", flush=True)
+                    res.known_seen.append(cls[0]['id'])
+                continue
         if d is None and o is not None:
             # model and implementation agree, property predicate false on the implementation
             matched = [f for f in known if f.get('engine') == eng.name and f.get('oracle_match') and re.search(f['oracle_match'], o)]
